@@ -7,8 +7,19 @@ def knobs(r, i):
     return {"threads": 1 + i % 3, "exits": True, "cycle_density": 1 + i % 3, "cancelable": i % 2 == 0, "ops": 30 + r.below(120), "stepped": i % 4 == 1}
 
 
+def inherit(c):
+    """an event is attached (through the handle) to a child that outlives its root; the root finishes and a cycle runs; then
+    another trace is in flight: nothing of the first trace's parked attachments may show up under the second"""
+    return ["0 spawn", "0 setReporter %d" % c, "0 root r 72 1 0 1", "0 child1 k 6b r", "0 addEvent k 65 none", "0 addProps k 0:6b=76", "0 drop r", "0 cycle", "0 stats",
+            "0 root z 7a 2 0 1", "0 cycle", "0 stats", "0 root y 79 3 0 1", "0 cycle", "0 stats", "0 drop k", "0 drop z", "0 drop y", "0 cycle", "0 cycle", "0 stats"]
+
+
+def extra(r):
+    return [("focus/parked-attachments-not-inherited-%d" % c, inherit(c), ["no_panic", "retained"]) for c in (0, 1)]
+
+
 def run(v, tier, seed, replay):
-    cases, impl, model = seqcheck.run(v, tier, seed, replay, "C08", ["C08"], tree_oracles=["no_panic", "retained", "exactly_once"], wild_oracles=["no_panic"], knobs=knobs,
+    cases, impl, model = seqcheck.run(v, tier, seed, replay, "C08", ["C08"], tree_oracles=["no_panic", "retained", "exactly_once"], wild_oracles=["no_panic"], knobs=knobs, extra_cases=extra,
                  n_quick=(1800, 450), n_thorough=(60000, 10000),
                  nontrivial=lambda lines, tr: bool(tr.stats),
                  assumptions=["a start drained in a later cycle than its commit/drop leaves a permanent entry (open finding D4, C08 example); not reachable at the harness' granularity of whole cycles"])
